@@ -157,8 +157,17 @@ def buffer_forms(out):
                         async def __call__(self, args):
                             await self.inner(args)
                     func = Sender(func)
+                configured = None
+                if form == 'deco' and len(gaps) == 3:
+                    # the options are chosen early (at import, in set-up code) while some other loop is the current
+                    # one; the function is wrapped later, under the loop that will run it - as in the direct form
+                    other = VLoop()
+                    asyncio.set_event_loop(other)
+                    configured = buffer_until_timeout(timeout=T * TICK)
+                    asyncio.set_event_loop(loop)
                 try:
                     buf = (buffer_until_timeout(func, timeout=T * TICK) if form == 'direct'
+                           else configured(func) if configured is not None
                            else buffer_until_timeout(timeout=T * TICK)(func))
 
                     async def main(buf=buf):
@@ -169,6 +178,8 @@ def buffer_forms(out):
                     loop.run_until_complete(main())
                 finally:
                     loop.close()
+                    if configured is not None:
+                        other.close()
                     asyncio.set_event_loop(None)
                 logs[form] = calls
                 out.fingerprints.add(fingerprint(case))
